@@ -196,7 +196,10 @@ def _string_alias_body(t):
             if isinstance(v, str):
                 mod = sys.modules.get(t.__module__)
                 try:
-                    return eval(v, dict(vars(mod))) if mod is not None else None  # noqa: S307 - our own synthesised source
+                    ns = dict(vars(mod)) if mod is not None else None
+                    if ns is not None:
+                        ns.setdefault(t.__module__.split(".")[0], sys.modules[t.__module__.split(".")[0]])  # a body may spell its own module
+                    return eval(v, ns) if ns is not None else None  # noqa: S307 - our own synthesised source
                 except Exception:  # noqa: BLE001
                     return None
             t = v
@@ -356,6 +359,7 @@ class HasBasket:
     b: Basket9
     n: int = 0
 StrAliasP = typing.TypeAliasType("StrAliasP", "list[Plain2]")
+StrAliasQ = typing.TypeAliasType("StrAliasQ", "list[tlg_c09_special.Plain2]")  # the body spells the alias's own module
 NewOverStr = typing.NewType("NewOverStr", StrAliasP)
 @dataclasses.dataclass
 class StrAliasBehindWrappers:
@@ -363,6 +367,7 @@ class StrAliasBehindWrappers:
     fin: typing.Final[StrAliasP] = None
     nt: NewOverStr = None
     direct: StrAliasP = None
+    qualified: StrAliasQ = None
 @dataclasses.dataclass
 class QualifiedLeaves:
     # Literal leaves (their arguments are values, not member types) behind a qualifier; Callable / type[X] are outside U (C15)
@@ -399,6 +404,16 @@ class OuterF:
         up: typing.Optional[OuterF] = None
     i: InnerF = None
     many: list[InnerF] = dataclasses.field(default_factory=list)
+# bracket-free PEP 604 unions mixing builtin members with a class, on a cycle that does not run through the root
+@dataclasses.dataclass
+class HeadP:
+    link: int | LeftP | str = 0
+@dataclasses.dataclass
+class LeftP:
+    link: int | RightP | str = 0
+@dataclasses.dataclass
+class RightP:
+    link: int | LeftP | str = 0
 '''
 
 
@@ -420,6 +435,11 @@ def run_special(res):
                 forms(ns, "tlg_c09_special", nm, r, res, dict(case, name=nm, form=form), f"special:{nm}", nodes)
     # postponed annotations naming a NESTED class by its bare name (resolvable only through the namespace of the outer class)
     nsf = prelude.mkmod("tlg_c09_special_f", SPECIAL_F).__dict__
+    for nm in ("HeadP", "LeftP"):
+        for form in ("cls", "list"):
+            r = nsf[nm] if form == "cls" else list[nsf[nm]]
+            cold.clear_all()
+            invariants(r, f"{form} of {nm}", res, dict(case, name=nm, form=form), shape=f"special:{nm}(pipe-union cycle off the root)/root={form}")
     for form in ("cls", "list", "dict"):
         root = nsf["OuterF"]
         r = {"cls": root, "list": list[root], "dict": dict[str, root]}[form]
